@@ -1053,4 +1053,215 @@ theorem strip_sim : ∀ (s : List Char), (∀ c ∈ s, c ≠ '\r') → ∀ (rs :
 theorem strValue_strip (s : List Char) (h : ∀ c ∈ s, c ≠ '\r') : strValue (stripLineBreaks s) = strValue s :=
   strip_sim s h .start .normal .normal (.start _)
 
+/-! ## nothing but white space and decoration is added or removed -/
+
+/-- `b` is `a` with blocks from `ds` inserted. -/
+inductive Woven (ds : List (List Char)) : List Char → List Char → Prop
+  | nil : Woven ds [] []
+  | keep (c : Char) {a b : List Char} : Woven ds a b → Woven ds (c :: a) (c :: b)
+  | ins (d : List Char) {a b : List Char} : d ∈ ds → Woven ds a b → Woven ds a (d ++ b)
+
+theorem Woven.refl (ds : List (List Char)) : ∀ a, Woven ds a a
+  | [] => .nil
+  | c :: a => .keep c (Woven.refl ds a)
+
+theorem Woven.append {ds : List (List Char)} {a1 b1 a2 b2 : List Char} (h1 : Woven ds a1 b1)
+    (h2 : Woven ds a2 b2) : Woven ds (a1 ++ a2) (b1 ++ b2) := by
+  induction h1 with
+  | nil => simpa using h2
+  | keep c _ ih => simpa using Woven.keep c ih
+  | ins d hd _ ih => simpa [List.append_assoc] using Woven.ins d hd ih
+
+theorem payload_append (a b : List Char) : payload (a ++ b) = payload a ++ payload b := by
+  simp [payload]
+
+theorem payload_reverse (a : List Char) : payload a.reverse = (payload a).reverse := by
+  simp [payload, List.filter_reverse]
+
+theorem payload_of_all_ws {a : List Char} (h : a.all isWs = true) : payload a = [] := by
+  induction a with
+  | nil => rfl
+  | cons c r ih =>
+    simp only [List.all_cons, Bool.and_eq_true] at h
+    have := ih h.2
+    simp only [payload] at this ⊢
+    simp [h.1, this]
+
+theorem payload_of_all_blank {a : List Char} (h : a.all blank = true) : payload a = [] := by
+  apply payload_of_all_ws
+  rw [List.all_eq_true] at h ⊢
+  intro c hc
+  have := h c hc
+  unfold blank at this
+  simp at this
+  exact this.1
+
+/-- dropping leading white space (of the reversed buffer: trailing white space) keeps the payload -/
+theorem payload_dropWhile {q : Char → Bool} (hq : ∀ c, q c = true → isWs c = true) :
+    ∀ l : List Char, payload (l.dropWhile q) = payload l
+  | [] => rfl
+  | c :: r => by
+    simp only [List.dropWhile]
+    cases hc : q c with
+    | true =>
+      simp only [payload_dropWhile hq r]
+      simp [payload, hq c hc]
+    | false => rfl
+
+theorem payload_trimEndButLf (te : Bool) (acc : List Char) : payload (trimEndButLf te acc) = payload acc := by
+  unfold trimEndButLf
+  split
+  · exact payload_dropWhile (by intro c hc; simp at hc; exact hc.1) acc
+  · rfl
+
+theorem payload_trimEndWs (l : List Char) : payload (trimEndWs l) = payload l := by
+  unfold trimEndWs
+  rw [payload_reverse, payload_dropWhile (fun _ h => h), payload_reverse, List.reverse_reverse]
+
+theorem payload_pushStr (acc s : List Char) : payload (pushStr acc s).reverse = payload acc.reverse ++ payload s := by
+  simp [pushStr, payload_append]
+
+/-- the two decorations of a format: what stands between two lines, as payload -/
+def decorations (k : LoopCfg) : List (List Char) :=
+  [payload k.lineEnd ++ payload k.lineStart, payload k.lineStart]
+
+/-- the indentation strings carry no payload -/
+structure BlankIndent (k : LoopCfg) : Prop where
+  nl : k.indentNl.all isWs = true
+  noNl : k.indentNoNl.all isWs = true
+
+theorem pushFit_payload (k : LoopCfg) (hk : BlankIndent k) : ∀ (rem acc : List Char),
+    ∃ X, payload (pushFit k rem acc).reverse = payload acc.reverse ++ X ∧ Woven (decorations k) (payload rem) X
+  | [], acc => ⟨[], by simp [pushFit], .nil⟩
+  | g :: r, acc => by
+    unfold pushFit
+    split
+    · rename_i hg
+      have hgws : isWs g = true := by
+        have : g = '\n' := by simpa [isNl] using hg
+        subst this; decide
+      have hp : payload (g :: r) = payload r := by simp [payload, hgws]
+      have hnl : payload ('\n' :: trimEndButLf k.trimEnd acc).reverse = payload acc.reverse := by
+        rw [payload_reverse]
+        have : payload ('\n' :: trimEndButLf k.trimEnd acc) = payload acc := by
+          have h0 : isWs '\n' = true := by decide
+          simp only [payload, List.filter_cons, h0, Bool.not_true, Bool.false_eq_true, if_false]
+          exact payload_trimEndButLf _ _
+        rw [this, payload_reverse]
+      simp only
+      split
+      · obtain ⟨X, hX, hW⟩ := pushFit_payload k hk r
+          (pushStr (pushStr ('\n' :: trimEndButLf k.trimEnd acc) k.indentNoNl) k.lineStart)
+        refine ⟨payload k.lineStart ++ X, ?_, ?_⟩
+        · rw [hX, payload_pushStr, payload_pushStr, hnl, payload_of_all_ws hk.noNl]
+          simp
+        · rw [hp]
+          exact Woven.ins _ (by simp [decorations]) hW
+      · obtain ⟨X, hX, hW⟩ := pushFit_payload k hk r ('\n' :: trimEndButLf k.trimEnd acc)
+        exact ⟨X, by rw [hX, hnl], by rw [hp]; exact hW⟩
+    · obtain ⟨X, hX, hW⟩ := pushFit_payload k hk r (g :: acc)
+      by_cases hgws : isWs g = true
+      · refine ⟨X, ?_, ?_⟩
+        · rw [hX]; simp [payload, hgws]
+        · have hp : payload (g :: r) = payload r := by simp [payload, hgws]
+          rw [hp]; exact hW
+      · refine ⟨g :: X, ?_, ?_⟩
+        · rw [hX]; simp [payload, hgws]
+        · have hp : payload (g :: r) = g :: payload r := by simp [payload, hgws]
+          rw [hp]; exact Woven.keep g hW
+
+/-- the payload of the line a step returns is the payload of what it read -/
+def payloadOk (input : List Char) : Snippet → Prop
+  | .endOfInput l => l = input
+  | .lineEnd l n => payload l = payload (input.take n)
+  | .endWithLineFeed l n => payload l = payload (input.take n)
+
+theorem Step.payload_line {te : Bool} {input : List Char} {s : Snippet} (h : Step te input s) :
+    payloadOk input s := by
+  cases h with
+  | eoi => rfl
+  | feedTrim i _ hnl _ =>
+    simp only [payloadOk]
+    rw [take_succ_of_getElem? hnl, payload_append, payload_append, payload_trimEndWs]
+  | feed n _ _ _ => rfl
+  | lineTrim m n _ hmn _ hn hblank _ _ =>
+    simp only [payloadOk]
+    have : input.take n = input.take m ++ (input.take n).drop m := by
+      have h1 : input.take m = (input.take n).take m := by rw [List.take_take, Nat.min_eq_left hmn]
+      rw [h1, List.take_append_drop]
+    rw [this, payload_append, payload_of_all_blank hblank]
+    simp
+  | line n _ _ _ _ _ => rfl
+
+theorem payload_take_drop (l : List Char) (n : Nat) : payload (l.take n) ++ payload (l.drop n) = payload l := by
+  rw [← payload_append, List.take_append_drop]
+
+/-- The loop of `rewrite_string`, any format: the payload it appends to the buffer is the payload of what
+was left of the input, with decorations woven in. -/
+theorem loop_payload (k : LoopCfg) (hk : BlankIndent k) : ∀ (fuel : Nat) (rem acc : List Char) (curMax : Nat)
+    (acc' : List Char), loop k fuel rem acc curMax = some acc' →
+    ∃ X, payload acc'.reverse = payload acc.reverse ++ X ∧ Woven (decorations k) (payload rem) X
+  | 0, _, _, _, _, h => by simp [loop] at h
+  | fuel + 1, rem, acc, curMax, acc', h => by
+    unfold loop at h
+    split at h
+    · cases h
+      obtain ⟨X, hX, hW⟩ := pushFit_payload k hk rem acc
+      exact ⟨X, by rw [payload_reverse, payload_trimEndButLf, ← payload_reverse, hX], hW⟩
+    · have hs := (breakString_step curMax k.trimEnd k.lineEnd rem).payload_line
+      split at h
+      · rename_i line len heq
+        rw [heq] at hs
+        simp only [payloadOk] at hs
+        obtain ⟨X, hX, hW⟩ := loop_payload k hk fuel _ _ _ _ h
+        refine ⟨payload (rem.take len) ++ ((payload k.lineEnd ++ payload k.lineStart) ++ X), ?_, ?_⟩
+        · rw [hX, payload_pushStr, payload_pushStr, payload_pushStr, payload_pushStr, hs,
+            payload_of_all_ws hk.nl]
+          simp
+        · rw [← payload_take_drop rem len]
+          exact Woven.append (Woven.refl _ _) (Woven.ins _ (by simp [decorations]) hW)
+      · rename_i line len heq
+        rw [heq] at hs
+        simp only [payloadOk] at hs
+        have hfeed : payload (feedAcc k acc line).reverse = payload acc.reverse ++ payload (rem.take len) := by
+          unfold feedAcc
+          rw [payload_pushStr, hs]
+          split
+          · rw [payload_reverse, payload_dropWhile (fun _ h => h), ← payload_reverse]
+          · rfl
+        split at h
+        · obtain ⟨X, hX, hW⟩ := loop_payload k hk fuel _ _ _ _ h
+          refine ⟨payload (rem.take len) ++ X, ?_, ?_⟩
+          · rw [hX, hfeed]; simp
+          · rw [← payload_take_drop rem len]
+            exact Woven.append (Woven.refl _ _) hW
+        · obtain ⟨X, hX, hW⟩ := loop_payload k hk fuel _ _ _ _ h
+          refine ⟨payload (rem.take len) ++ (payload k.lineStart ++ X), ?_, ?_⟩
+          · rw [hX, payload_pushStr, payload_pushStr, hfeed, payload_of_all_ws hk.noNl]; simp
+          · rw [← payload_take_drop rem len]
+            exact Woven.append (Woven.refl _ _) (Woven.ins _ (by simp [decorations]) hW)
+      · rename_i line heq
+        rw [heq] at hs
+        simp only [payloadOk] at hs
+        cases h
+        subst hs
+        exact ⟨payload line, by rw [payload_pushStr], Woven.refl _ _⟩
+
+/-- `rewrite_string` before `wrap_str`: the payload of the result is the payload of the opener, of the
+stripped input with decorations woven in, and of the closer. -/
+theorem rewriteRaw_payload (k : LoopCfg) (hk : BlankIndent k) (opener closer orig r : List Char)
+    (h : rewriteRaw k opener closer orig = some r) :
+    ∃ X, payload r = payload opener ++ X ++ payload closer ∧
+      Woven (decorations k) (payload (stripLineBreaks orig)) X := by
+  unfold rewriteRaw at h
+  simp only at h
+  cases hl : loop k ((stripLineBreaks orig).length + 1) (stripLineBreaks orig) opener.reverse k.mwWith with
+  | none => simp [hl] at h
+  | some acc' =>
+    simp only [hl, Option.some.injEq] at h
+    obtain ⟨X, hX, hW⟩ := loop_payload k hk _ _ _ _ _ hl
+    refine ⟨X, ?_, hW⟩
+    rw [← h, payload_pushStr, hX]
+    simp
+
 end RF.Lemmas.StringFmt
